@@ -38,9 +38,12 @@ type caseC11 struct {
 	// reference encoding of the model in this style.
 	Wire  bool      `json:"wire,omitempty"`
 	Style styleJSON `json:"style,omitempty"`
+	// Other: frames of OTHER packets decoded between the encodings (operation
+	// 5 takes the next one); decoding one packet must not change another.
+	Other []preOp `json:"other,omitempty"`
 }
 
-var roOpNames = []string{"WriteTo", "String", "Dump", "WellFormed", "Accessors"}
+var roOpNames = []string{"WriteTo", "String", "Dump", "WellFormed", "Accessors", "decode another packet"}
 
 func doReadOnly(p mq.ControlPacket, op int) {
 	switch op {
@@ -87,9 +90,18 @@ func checkC11(c caseC11) (frame []byte, sig, msg string) {
 				sig, msg = "mutated-by:"+what, fmt.Sprintf("accessor values changed after %s: %s", what, d)
 			}
 		}
+		nextOther := 0
 		for i := 0; enc < c11Encodings || i < len(c.Ops); i++ {
 			if i < len(c.Ops) {
-				doReadOnly(p, c.Ops[i])
+				if c.Ops[i] == 5 {
+					if nextOther < len(c.Other) {
+						o := c.Other[nextOther]
+						nextOther++
+						_, _, _ = decodeVia(o.Entry, o.Frame)
+					}
+				} else {
+					doReadOnly(p, c.Ops[i])
+				}
 				step(roOpNames[c.Ops[i]])
 			}
 			b, _, _ := api.Encode(p)
@@ -172,8 +184,14 @@ func TestC11(t *testing.T) {
 	r.Rapid(t, "in-process", vf.N(3000, 1200000), func(t *rapid.T) {
 		m := genC11(t)
 		plan := drawPlan(t, &m)
-		ops := rapid.SliceOfN(rapid.IntRange(0, 4), 0, 12).Draw(t, "ops")
+		ops := rapid.SliceOfN(rapid.IntRange(0, 5), 0, 12).Draw(t, "ops")
 		c := caseC11{ModelGob: packModel(m), Model: m.String(), Plan: plan, Ops: ops}
+		for _, o := range ops {
+			if o == 5 {
+				pre := drawPreludeN(t, 1)
+				c.Other = append(c.Other, pre...)
+			}
+		}
 		frame, sig, msg := checkC11(c)
 		wp := emittedWillProps(&m)
 		nt := wp >= 2 || len(ops) >= 3
